@@ -220,7 +220,10 @@ def run_case(case):
     tname, term = case
     t_ref, t_impl = mk_target(tname), mk_target(tname)
     ref, ref_log = outcome_ref(term, t_ref)
+    before = norm(t_impl)
     got, log, spec = outcome_impl(term, t_impl)
+    if norm(t_impl) != before:
+        return R({'expected': 'target unchanged %r' % (mk_target(tname),), 'observed': repr(t_impl), 'target': tname, 'spec': repr(spec)[:500]}, 'mutated')
     where = {'target': tname, 'spec': repr(spec)[:500]}
     oc = ref[0] if ref[0] != 'glomerr' else 'glomerr:' + ref[1]
     if not compare(ref, got):
@@ -294,6 +297,8 @@ def composites(shape, kids, kids_of):
     for t, rs in vals[:6]:
         out.append((['dict', [[['k', 'y'], t], [['k', 'x'], ['T', []]]], 'odict'], 'any'))
         if shape == 'rec':
+            out.append((['dict', [[['kT', [['[', 'f']]], t], [['k', 'lit'], ['T', []]]], 'dict'], 'any'))
+            out.append((['dict', [[['k', 'first'], ['val', 1]], [['kT', [['[', 'f']]], t], [['k', 'last'], ['val', 3]]], 'odict'], 'any'))
             out.append((['dict', [[['kT', [['[', 'f']]], t]], 'dict'], 'any'))
             out.append((['dict', [[['kT', [['[', 'zz']]], t]], 'dict'], 'any'))
     # tuples / pipes: second step generated for the first step's result shape
@@ -352,6 +357,9 @@ def composites(shape, kids, kids_of):
     for t, rs in kids[:CAP['misc']]:
         out.append((['ref', 'r', t], rs))
     if shape == 'nested':
+        # an inner same-name definition in one dict value must not disturb the outer definition used by a sibling value
+        out.append((['ref', 'r', ['coalesce', [['dict', [[['k', 'a'], ['ref', 'r', ['val', 'inner']]],
+                                                         [['k', 'b'], ['tuple', [['T', [['[', 0]]], ['ref', 'r']]]]], 'dict'], ['val', 'leaf']], {}]], 'any'))
         out.append((['ref', 'r', ['coalesce', [['list', ['ref', 'r']], ['fn', 'inc']], {}]], 'any'))
         out.append((['ref', 'r', ['coalesce', [['list', ['ref', 'r']], ['fn', 'skip_if_big']], {}]], 'any'))
         out.append((['ref', 'o', ['list', ['ref', 'r', ['coalesce', [['list', ['ref', 'r']], ['ref', 'o'], ['T', []]], {'skip_exc': 'both'}]]]], 'any'))
